@@ -20,7 +20,7 @@ CFG = {
 
 
 SMALL = {
-    'templates': ['m2m', 'o2m_opt', 'o2m_req', 'self', 'o2o_opt', 'o2o_req_cascade', 'mixed_cascade'],
+    'templates': ['m2m', 'o2m_opt', 'o2m_req', 'self', 'o2o_opt', 'o2o_req_cascade', 'mixed_cascade', 'pkref'],
     'budget': {'quick': 9000, 'thorough': 160000},
     'monitors': CFG['monitors'],
 }
